@@ -78,6 +78,8 @@ pub struct WorldInner {
     /// CloseReturned is logged.
     pub written_at_close: BTreeMap<u32, u64>,
     pub srv_written: BTreeMap<u32, u64>,
+    /// VERIF_LIVE=1: print events as they are logged (debugging aid)
+    pub live: bool,
 }
 
 #[derive(Clone)]
@@ -97,6 +99,7 @@ impl World {
             triggers: Vec::new(),
             written_at_close: BTreeMap::new(),
             srv_written: BTreeMap::new(),
+            live: std::env::var_os("VERIF_LIVE").is_some(),
         })))
     }
 
@@ -110,6 +113,10 @@ impl World {
         let t = (tokio::time::Instant::now() - w.start).as_millis() as u64;
         let seq = w.events.len() as u64;
         w.events.push(Event { seq, t, kind, conn, req, a, b });
+        if w.live {
+            // debugging aid (VERIF_LIVE=1): events as they happen
+            eprintln!("{seq:>7} t={t:<7} {kind:?} conn={} req={req} a={a} b={b}", conn as i32);
+        }
         if kind == Ev::CloseReturned {
             w.written_at_close = w.srv_written.clone();
         }
